@@ -5,7 +5,7 @@ S='/verif/seeded'
 res=json.load(open(f'{S}/RESULTS.json'))
 extra=json.load(open(f'{S}/EXTRA.json')) if os.path.exists(f'{S}/EXTRA.json') else {}
 conf={}
-for f in ['/tmp/wt/confirm_batch1.log','/tmp/wt/confirm_batch2.log', f'{S}/CONFIRM.log', f'{S}/CONFIRM_r2.log', f'{S}/CONFIRM_r3.log', f'{S}/CONFIRM_r4.log', f'{S}/CONFIRM_r5.log']:
+for f in ['/tmp/wt/confirm_batch1.log','/tmp/wt/confirm_batch2.log', f'{S}/CONFIRM.log', f'{S}/CONFIRM_r2.log', f'{S}/CONFIRM_r3.log', f'{S}/CONFIRM_r4.log', f'{S}/CONFIRM_r5.log', f'{S}/CONFIRM_r6.log']:
     if os.path.exists(f):
         for l in open(f):
             p=l.split()
@@ -18,7 +18,7 @@ for d in sorted(glob.glob(f'{S}/C*/*/')):
     except Exception:
         try: meta=json.load(open(d+'meta.agent.json'))
         except Exception: meta={}
-    meta['round']=5 if '/r5-' in sid else 4 if '/r4-' in sid else 3 if '/r3-' in sid else (2 if '/r2-' in sid else 1)
+    meta['round']=6 if '/r6-' in sid else 5 if '/r5-' in sid else 4 if '/r4-' in sid else 3 if '/r3-' in sid else (2 if '/r2-' in sid else 1)
     meta['breaks_property']=sid.split('/')[0]
     meta['origin']='independent sub-agent that saw only the property text and its own scratch worktree of /repo'
     meta['confirmation']={'result':conf.get(sid,'?'),'how':'tools/confirm_seed.sh: demo.rs as tests/seed_demo.rs passes on the clean tree (cargo test --all-features --offline --test seed_demo), fails with patch.diff applied; with the patch and without the demo both cargo test --offline and cargo test --all-features --offline pass'}
